@@ -212,22 +212,18 @@ func (rg *Range) obligations() []*boundOb {
 			n := o.goal[0]
 			bounded := rg.entails(facts, linConst(1<<20).minus(n))
 			if !bounded {
+				// n <= 64 * (sum of the lengths of inputs and of byte sizes of big
+				// integers that already exist in memory) + 2^16
+				sum := newLin()
 				for name := range rg.atoms {
-					// lengths of inputs, and bit lengths of big integers that already
-					// exist in memory (their byte size is (BitLen+7)/8)
 					inputLen := (strings.HasPrefix(name, "len(param:") || strings.HasPrefix(name, "len(out<")) && !strings.Contains(name, "make(")
-					if inputLen || strings.HasPrefix(name, "call<(*math/big.Int).BitLen>(") {
-						if rg.entails(facts, linAtom(name).scale(64).addConst(1<<16).minus(n)) {
-							bounded = true
-							if os.Getenv("C03_TRACE") != "" {
-								fmt.Printf("TRACE make at %s bounded by %s; n=%s\n", rg.p.InstrPos(o.in), name, n.Short())
-								for _, f := range facts {
-									fmt.Printf("     fact  %s >= 0\n", f.Short())
-								}
-							}
-							break
-						}
+					bigSize := strings.HasPrefix(name, "call<(*math/big.Int).BitLen>(") || strings.HasPrefix(name, "len(call<(*math/big.Int).Bytes>(")
+					if inputLen || bigSize {
+						sum = sum.plus(linAtom(name))
 					}
+				}
+				if len(sum.c) > 0 && rg.entails(facts, sum.scale(64).addConst(1<<16).minus(n)) {
+					bounded = true
 				}
 			}
 			if !bounded {
